@@ -1,13 +1,23 @@
 #!/bin/bash
 # No-false-alarm regression: the behaviour-preserving refactorings in seeded/harmless/*.diff (written by independent
-# sub-agents, each with an old-vs-new equivalence script) are applied to /repo together (never committed); every check
-# must still exit 0.  /repo is restored afterwards.
+# sub-agents, each with an old-vs-new equivalence script) are applied to /repo in two sets (H1-H4, H5-H8: the sets
+# rewrite the same functions differently), never committed; every check must still exit 0.  /repo is restored afterwards.
+# usage: tools/harmless_regress.sh [quick|thorough] [set ...]     (sets: A = H1..H4, B = H5..H8)
 cd /verif
-[ -z "$(git -C /repo status --porcelain -- src)" ] || { echo "/repo/src is not clean; refusing"; exit 2; }
-for p in seeded/harmless/*.diff; do git -C /repo apply --3way /verif/$p 2>/dev/null || git -C /repo apply /verif/$p || { echo "$p does not apply -- skipped"; }; done
-git -C /repo reset -q
-tools/run_all.sh ${1:-quick} 2>&1 | grep -E "^\[C|VIOLATION|UNDECIDED|CRASH|exit="
+tier=${1:-quick}; shift
+sets=("$@"); [ ${#sets[@]} -eq 0 ] && sets=(A B)
 rc=0
-for f in /tmp/verif_runall/C*.log; do grep -q "VIOLATION\|UNDECIDED\|CHECKER-CRASH" $f && { echo "NOT GREEN: $f"; rc=1; }; done
-git -C /repo checkout -- src
+for set in "${sets[@]}"; do
+  [ -z "$(git -C /repo status --porcelain -- src)" ] || { echo "/repo/src is not clean; refusing"; exit 2; }
+  if [ $set = A ]; then names="H1 H2 H3 H4"; else names="H5 H6 H7 H8"; fi
+  for n in $names; do
+    p=seeded/harmless/$n.diff; [ -f $p ] || continue
+    git -C /repo apply --3way /verif/$p 2>/dev/null || git -C /repo apply /verif/$p || echo "$p does not apply -- skipped"
+  done
+  git -C /repo reset -q
+  echo "== set $set ($names) applied: $(git -C /repo status --porcelain -- src | wc -l) files changed"
+  tools/run_all.sh $tier 2>&1 | grep -E "^\[C|VIOLATION|UNDECIDED|CRASH" | grep -v "refuted=0 (known 0) undecided=0" | grep -v "refuted=1 (known 1) undecided=0"
+  for f in /tmp/verif_runall/C*.log; do grep -q "^VIOLATION\|^UNDECIDED\|CHECKER-CRASH" $f && { echo "NOT GREEN under set $set: $f"; rc=1; }; done
+  git -C /repo checkout -- src
+done
 exit $rc
